@@ -11,12 +11,14 @@ package main
 
 import (
 	"bytes"
+	"encoding/hex"
 	"encoding/json"
 	"fmt"
 	"image"
 	"math/rand"
 	"net"
 	"os"
+	"path/filepath"
 	"reflect"
 	"strings"
 	"sync"
@@ -165,6 +167,7 @@ type attacker struct {
 	me              *refctl.Identity
 	srpSalt, srpB   []byte
 	srpK            []byte // session key of the attacker's own SRP run with a guessed password
+	inSibling       bool   // the attacker's identity is stored by a sibling accessory (a storage folder next to this one)
 }
 
 type step struct {
@@ -179,7 +182,7 @@ var protectedOps = []string{"GET /accessories", "GET /characteristics", "PUT val
 	"other-method DELETE /pairings", "other-method PATCH /pairings", "other-method OPTIONS /pairings", "other-method FOO /pairings", "other-method DELETE /pairings-remove", "other-method PATCH /pairings-remove",
 	"other-method DELETE /characteristics", "other-method PATCH /characteristics", "other-method OPTIONS /accessories", "other-method PATCH /accessories", "other-method DELETE /resource", "other-method FOO /characteristics"}
 var handshakeOps = []string{"setup M1", "setup M3 wrong-proof", "setup M3 A=0", "setup M5 zero-key", "verify M1", "verify M1 short-key", "verify M3 unknown-name", "verify M3 accessory-name",
-	"verify M3 L-bad-signature", "verify M3 zero-key", "verify M3 short", "identify", "L read", "L write", "L subscribe", "switch-connection", "encrypted GET /accessories", "encrypted PUT value", "encrypted-zero GET /accessories", "encrypted-zero PUT value",
+	"verify M3 L-bad-signature", "verify M3 zero-key", "verify M3 short", "verify M3 name-is-a-path", "identify", "L read", "L write", "L subscribe", "switch-connection", "encrypted GET /accessories", "encrypted PUT value", "encrypted-zero GET /accessories", "encrypted-zero PUT value",
 	// complete, consistent SRP runs with passwords anybody can know (what the accessory advertises, the fixed SRP user, nothing),
 	// and the key exchange sealed under the key of that run
 	"setup M3 guess:accessory-id", "setup M3 guess:accessory-name", "setup M3 guess:empty", "setup M3 guess:srp-user", "setup M5 guess-key"}
@@ -257,6 +260,7 @@ func main() {
 	rnd := r.Rand("c01")
 	dir := app.ScratchDir(r.WorkDir(), "store")
 	defer os.RemoveAll(dir)
+	defer os.RemoveAll(filepath.Join(filepath.Dir(dir), "sibling-of-"+filepath.Base(dir)))
 	L := refctl.NewIdentity("legit-controller", rnd)
 	w, err := build(rnd, dir, L)
 	if err != nil {
@@ -312,7 +316,7 @@ func main() {
 	// persistence: many failed attempts on one connection (counters, lock-outs), then protected requests in plaintext and
 	// under the keys of the last failed exchange
 	for _, k := range []int{100, r.Pick(3, 256)} {
-		for _, pair := range [][2]string{{"verify M1", "verify M3 L-bad-signature"}, {"verify M1", "verify M3 unknown-name"}, {"setup M1", "setup M3 wrong-proof"}, {"setup M1", "setup M3 A=0"}} {
+		for _, pair := range [][2]string{{"verify M1", "verify M3 L-bad-signature"}, {"verify M1", "verify M3 unknown-name"}, {"verify M1", "verify M3 name-is-a-path"}, {"setup M1", "setup M3 wrong-proof"}, {"setup M1", "setup M3 A=0"}} {
 			var h []step
 			for i := 0; i < k; i++ {
 				h = append(h, step{Op: pair[0]}, step{Op: pair[1]})
@@ -694,6 +698,21 @@ func handshakeMessage(w *world, at *attacker, op string, rnd *rand.Rand) ([]byte
 		return refctl.VerifyM3(key, refctl.VerifyM3Plain(w.L.ID, at.me.LTSK, pub, accPub)), "/pair-verify"
 	case "verify M3 zero-key":
 		return refctl.VerifyM3([32]byte{}, refctl.VerifyM3Plain(w.accID, at.me.LTSK, pub, accPub)), "/pair-verify"
+	case "verify M3 name-is-a-path":
+		// the peer IS paired - with another accessory on the same host, whose storage folder lies next to this one's.  It
+		// names itself by a path that leads from this accessory's folder to its record over there and signs with its own key
+		sib := filepath.Join(filepath.Dir(w.dir), "sibling-of-"+filepath.Base(w.dir))
+		if !at.inSibling {
+			os.MkdirAll(sib, 0o755)
+			if err := app.StoreController(sib, at.me); err != nil {
+				run.Inconclusive("sibling accessory storage: " + err.Error())
+			}
+			at.inSibling = true
+			run.Count("attackers_paired_with_a_sibling_accessory", 1)
+		}
+		rel := "../" + filepath.Base(sib) + "/"
+		name := []string{rel + hex.EncodeToString([]byte(at.me.ID)), "./" + rel + hex.EncodeToString([]byte(at.me.ID)), rel + hex.EncodeToString([]byte(at.me.ID)) + ".entity", sib + "/" + hex.EncodeToString([]byte(at.me.ID))}[rnd.Intn(4)]
+		return refctl.VerifyM3(key, refctl.VerifyM3Plain(name, at.me.LTSK, pub, accPub)), "/pair-verify"
 	case "verify M3 short":
 		return refctl.VerifyM3Raw([]byte{1, 2, 3}), "/pair-verify"
 	}
@@ -728,6 +747,11 @@ func handshakeResponse(at *attacker, op string, m *refctl.Message, err error) {
 	default:
 		if strings.HasPrefix(op, "verify M3") {
 			at.haveExchange = false
+			if st, _ := t.Byte(refctl.TagState); st == 4 {
+				if _, bad := t.Byte(refctl.TagError); !bad {
+					run.Count("forged_finishes_answered_without_an_error:"+op, 1)
+				}
+			}
 		}
 	}
 }
